@@ -379,3 +379,16 @@ impl<T: Value, N: Unsigned, U: UpdateMap<T>> Decode for Vector<T, N, U> {
         })
     }
 }
+
+#[cfg(feature = "verif")]
+impl<T: Value, N: Unsigned, U: UpdateMap<T>> Vector<T, N, U> {
+    /// Backing tree and its depth (pending updates not included).
+    pub fn verif_backing(&self) -> (&Arc<Tree<T>>, usize) {
+        (&self.interface.backing.tree, self.interface.backing.depth)
+    }
+
+    /// The pending update map.
+    pub fn verif_updates(&self) -> &U {
+        &self.interface.updates
+    }
+}
